@@ -348,6 +348,17 @@ def run_shard(spec, ctx):
                 if words:
                     data = data + b" " + b" ".join(r.choice(words) for _ in range(3))
                     case["data"] = runner.hx(data)
+                if r.random() < 0.3:
+                    # a keyword file whose name is not valid UTF-8 (labels with lone surrogates): --json must stay valid, lossless JSON
+                    name = os.fsdecode(r.choice([b"caf\xe9.name", b"\xff\xfelist", b"k\x80w"])) + str(i)
+                    word = b"qzxw" + str(i).encode()
+                    with open(os.path.join(kwdir, name), "wb") as f:
+                        f.write(word + b"\n")
+                    case["kwfiles"].append([name, (word + b"\n").hex()])
+                    data = data + b" " + word
+                    case["data"] = runner.hx(data)
+                    case["mode"] = mode = "json"  # the text modes write labels through the locale's encoder: environment, not library
+                    ctx.count("cli_keyword_file_name_not_utf8")
                 if r.random() < 0.5:
                     # a listed keyword that is also, letter for letter, another decoder's result (same span: the order of
                     # the registry decides which one is the parent)
